@@ -22,7 +22,7 @@ mod verif_path {
     //@defaults unit=U12.3 props=C12,C02 tier=quick level=bounded bound="<= 3 points (any i32 coordinates, any flag bytes), 1 contour end index (any u16), both path styles" timeout=2400 tier=thorough
     //@harness fns=to_path,contour_to_path,PendingState::emit,ContourPoint::midpoint,ContourPoint::point_f32
     #[kani::proof]
-    #[kani::unwind(6)]
+    #[kani::unwind(10)]
     fn to_path_emits_well_formed_commands() {
         let xs: [i32; 3] = kani::any();
         let ys: [i32; 3] = kani::any();
